@@ -25,6 +25,37 @@ FIELDSETS = [(t, s, e) for t in (None, "T ü") for s in (None, "sub") for e in (
 COORDS = {"base_url": "http://wiki.example/w/", "script_extension": ".php", "login_credentials": "u:p:d"}
 
 
+def _m_append(mb_mod, x):
+    x.append_article("Added Later", revision="77")
+
+
+def _m_title(mb_mod, x):
+    x.title = "renamed"
+    x.subtitle = "renamed too"
+
+
+def _m_first_item(mb_mod, x):
+    if x.items:
+        x.items[0].title = "changed"
+        if getattr(x.items[0], "items", None):
+            x.items[0].items.pop()
+    else:
+        x.items.append(mb_mod.Chapter(title="new chapter"))
+
+
+def _m_drop_items(mb_mod, x):
+    del x.items[:]
+
+
+def _m_wikis(mb_mod, x):
+    x.wikis.append(mb_mod.WikiConf(baseurl="http://other.example/w/"))
+    x.licenses.append({"name": "other"})
+
+
+MUTS = {"append": _m_append, "title": _m_title, "first-item": _m_first_item, "drop-items": _m_drop_items, "wikis": _m_wikis}
+MUT_SEQS = [(a,) for a in MUTS] + [(a, b) for a in MUTS for b in MUTS]
+
+
 def build(spec):
     """spec = (items, fields) -> metabook.Collection built through the public constructors"""
     from mwlib.core import metabook
@@ -74,7 +105,8 @@ def reverse_keys(x):
 class C13(InputProp):
     id = "C13"
     rule = ("every metabook over 24 articles + 14 chapters up to the item bound (x optional-field presence for <=2 items); per metabook: "
-            "round trip, fixed point, id invariance under 6 serialisation variants, 5 single-field request mutations, default-sharing probe; "
+            "round trip, fixed point, id invariance under 6 serialisation variants, 5 single-field request mutations, default-sharing probe, "
+            "every history load / modify the loaded copy (<= 2 of 5 modifications) / load + identify again on the same text; "
             "across the space: id injectivity by grouping; distinct = distinct collection ids")
     assumptions = ("titles/revisions/fields from small fixed domains",)
     chunk = 500
@@ -169,6 +201,27 @@ class C13(InputProp):
                     m2 = build((tuple(its), spec[1]))
                     if self.cid(dict(base, metabook=m2.dumps()), which) == ref:
                         viol.append({"sig": "id-ignores:%s:%s" % (which, mn), "msg": "id unchanged when %s differs" % mn})
+        # histories on ONE serialized text: load, modify what was loaded, load / identify again (every sequence of <= 2
+        # modifications from MUTS, each followed by a fresh load and both id functions).  loads() and the ids are functions
+        # of the text alone, whatever was done to earlier results.
+        nhist = 0
+        for seq in MUT_SEQS:
+            x = self.myjson.loads(s)
+            for mname in seq:
+                MUTS[mname](self.metabook, x)
+                y = self.myjson.loads(s)
+                nhist += 1
+                if plain(y) != p0:
+                    viol.append({"sig": "loads-depends-on-history:" + mname, "msg": "after %s on an earlier result, loads(text) = %r, the text says %r" % (
+                        "+".join(seq), plain(y), p0)})
+                    break
+                bad = [w for w in ("nserve", "serve") if self.cid(dict(base, metabook=s), w) != ids[w]] if mname is seq[-1] else []
+                if bad:
+                    viol.append({"sig": "id-depends-on-history:" + mname, "msg": "after %s on a loaded copy the same request gets another collection id (%s)" % ("+".join(seq), bad)})
+                    break
+                x = y
+            if viol:
+                break
         # class-level defaults are never shared between instances
         other = self.metabook.Collection()
         if other.items or other.licenses or other.wikis:
@@ -176,7 +229,7 @@ class C13(InputProp):
         ch = self.metabook.Chapter()
         if ch.items:
             viol.append({"sig": "shared-defaults", "msg": "a fresh Chapter starts with items=%r" % (ch.items,)})
-        return {"key": ids["nserve"], "steps": 2 * (len(variants) + 6) + 4, "viol": viol,
+        return {"key": ids["nserve"], "steps": 2 * (len(variants) + 6) + 4 + nhist, "viol": viol,
                 "collect": [(ids["nserve"], ids["serve"], stable_hash(json.dumps(p0, sort_keys=True)))]}
 
     def run_pair(self, spec):
